@@ -2,7 +2,7 @@
 from __future__ import annotations
 from typing import Callable, Dict, Optional, Sequence, Union
 import re
-from os import PathLike
+from os import PathLike, fspath
 
 import numpy
 import numpy.typing
@@ -107,7 +107,20 @@ def loadtxt(
 
     """
     if isinstance(fname, (str, bytes, PathLike)):
-        with open(fname) as src:
+        # compressed files are read transparently, like numpy.loadtxt does
+        name = fspath(fname)
+        name = name.decode() if isinstance(name, bytes) else name
+        if name.endswith(".gz"):
+            import gzip
+
+            opener = gzip.open
+        elif name.endswith(".bz2"):
+            import bz2
+
+            opener = bz2.open
+        else:
+            opener = open
+        with opener(fname, "rt") as src:
             header = src.readline()
     else:
         # peek at the first line only: without a numpoly header it is data
